@@ -618,3 +618,94 @@ Proof.
 Qed.
 
 End StarPropose.
+
+(* ================================================================== *)
+(* 8.9 the theorem with explicit hypotheses                            *)
+(* ================================================================== *)
+
+Lemma Forall2_In_r {A B} (P : A -> B -> Prop) xs ys y :
+  Forall2 P xs ys -> In y ys -> exists x, In x xs /\ P x y.
+Proof.
+  induction 1 as [|x0 y0 xs ys Hp _ IH]; intros Hy; [destruct Hy|].
+  destruct Hy as [<-|Hy]; [exists x0; split; [left; reflexivity|exact Hp]|].
+  destruct (IH Hy) as (x & Hx & Hpx). exists x. split; [right; exact Hx|exact Hpx].
+Qed.
+
+(* what is reached for follower Fc after the proposal *)
+Definition prop_done (L Lc : raft) (d : list N) (L' : raft) (Fc F' : raft) : Prop :=
+  r_id F' = r_id Fc /\
+  (exists pr', get_pr L' (r_id Fc) = Some pr' /\ matched pr' = last_index (r_log L) + 1) /\
+  Agree (ll_append (abs (r_log L)) [new_ent Lc d]) (abs (r_log F'))
+        (start_matched L (r_id Fc)) (last_index (r_log L) + 1) /\
+  committed (r_log F') = last_index (r_log L) + 1.
+
+(* MAIN 8 (star_propose_all).  A star that starts as in star_convergence runs N0 rounds and
+   reaches (Lc, Fsc).  In that converged state: the leader's log is well formed with no
+   pending snapshot, it has no uncommitted-size limit, its own Progress has
+   matched = last_index (its log is persisted), every follower's log ends at the leader's
+   last index (it holds nothing above it), the voters are the leader and some of the
+   followers, at least one follower is a voter.  The application proposes one normal entry
+   (MsgPropose stepped into Lc), the leader persists it (persist_leader), and N1 + K star
+   rounds run, N1 the convergence bound for the longer log and K >= heartbeat_timeout + 1.
+   Then the leader has committed the new entry (commit index last_index + 1), and for every
+   follower: the leader's Progress has matched = last_index + 1, the follower's log agrees
+   with the leader's new log up to last_index + 1 (it holds the new entry's index with the
+   leader's term), and its commit index is last_index + 1. *)
+Theorem star_propose_all :
+  forall (L : raft) (Fs : list raft) (rwl rwf : bool) (N0 : nat) (Lc : raft) (Fsc : list raft)
+         (pl : progress) (d : list N) (L2 : raft) (N1 K : nat) (L' : raft) (Fs' : list raft),
+  (* the first run *)
+  star_leader L rwl -> Fs <> [] -> NoDup (map r_id Fs) -> Forall (star_start L rwf) Fs ->
+  (forall F, In F Fs ->
+     (N.to_nat (r_heartbeat_timeout L + 2) *
+      N.to_nat (pair_measure_bound (last_index (r_log L)) (start_matched L (r_id F))) <= N0)%nat) ->
+  star_rounds N0 L Fs = Ok (Lc, Fsc) ->
+  (* the converged state *)
+  RepInv rwl (r_log Lc) -> u_snapshot (unst (r_log Lc)) = None ->
+  last_index (r_log L) + 1 < u64_max -> r_max_uncommitted_size Lc = u64_max ->
+  (forall Fc, In Fc Fsc -> last_index (r_log Fc) = last_index (r_log L)) ->
+  get_pr Lc (r_id L) = Some pl -> matched pl = last_index (r_log L) ->
+  incoming (conf_of Lc) <> [] ->
+  (forall v, In v (incoming (conf_of Lc)) \/ In v (outgoing (conf_of Lc)) ->
+             v = r_id L \/ In v (map r_id Fsc)) ->
+  (exists Fc, In Fc Fsc /\
+     (In (r_id Fc) (incoming (conf_of Lc)) \/ In (r_id Fc) (outgoing (conf_of Lc)))) ->
+  (* the proposal, the persistence, the second run *)
+  propose_persist Lc d = Ok L2 ->
+  (forall F, In F Fs ->
+     (N.to_nat (r_heartbeat_timeout L + 2) *
+      N.to_nat (pair_measure_bound (last_index (r_log L) + 1) (start_matched L (r_id F))) <= N1)%nat) ->
+  (N.to_nat (r_heartbeat_timeout L + 1) <= K)%nat ->
+  star_rounds (N1 + K) L2 Fsc = Ok (L', Fs') ->
+  committed (r_log L') = last_index (r_log L) + 1 /\
+  Forall2 (prop_done L Lc d L') Fsc Fs'.
+Proof.
+  intros L Fs rwl rwf N0 Lc Fsc pl d L2 N1 K L' Fs' HL Hne Hnd Hall HN Hrun1
+         HIc Hsn Hbd Hmx Hlastf Hgl Hml Hinc Hvot Hvf Hpp HN1 HK Hrun2.
+  destruct (star_start_StarInv L Fs rwl rwf HL Hnd Hall) as [HLL HS].
+  destruct HL as (Ls & Lt & Lrep & Lnz & Lb & Ltr & Lcq & Lro & LH).
+  pose proof (abs_last rwl _ Lrep) as Hlast. rewrite Hlast in *.
+  set (LL := abs (r_log L)) in *.
+  destruct (star_converges LL (r_term L) (r_id L) rwf rwl (r_log L) (start_matched L)
+              HLL Lt Lrep eq_refl (r_heartbeat_timeout L) L Fs N0 Lc Fsc HS LH
+              ltac:(intros F HF; unfold star_bound; apply HN; exact HF) Hrun1) as [HSc HFc].
+  pose proof (Forall2_ids _ _ _ HFc) as Hids.
+  assert (Hnec : Fsc <> []).
+  { intros E. subst Fsc. inversion HFc. subst Fs. congruence. }
+  destruct (star_propose LL (r_term L) (r_id L) rwf rwl (r_log L) (start_matched L) HLL Lt eq_refl
+              (r_heartbeat_timeout L) Lc Fsc d pl L2 N1 K L' Fs' HSc Hnec LH) as [R1 R2];
+    try assumption.
+  - intros Fc HFcin. destruct (Forall2_In_r _ _ _ _ HFc HFcin) as (F & _ & E & pr' & Hg & Hm & _).
+    exists pr'. rewrite E. auto.
+  - intros Fc HFcin. destruct (Forall2_In_r _ _ _ _ HFc HFcin) as (F & HF & E & _).
+    unfold star_bound. rewrite E. apply HN1. exact HF.
+  - split; [exact R1|]. eapply Forall2_impl_in; [|exact R2].
+    intros Fc F' _ ((E & Hp & Ag) & Hc). unfold prop_done.
+    assert (Hl1 : ll_last (ll_append LL [new_ent Lc d]) = ll_last LL + 1).
+    { apply ll_append1_last. cbn.
+      destruct HSc as [_ HAc]. destruct Fsc as [|F0 t]; [congruence|].
+      pose proof (Forall_inv HAc) as (_ & _ & _ & a & HI).
+      destruct (lc_log _ _ _ _ (pv_core _ _ _ _ _ _ _ _ _ _ _ HI)) as (A & B & _).
+      unfold last_index. rewrite A, B. fold (last_index (r_log L)). rewrite Hlast. reflexivity. }
+    rewrite Hl1 in Hp, Ag. rewrite Hlast. fold LL. split; [exact E|]. split; [exact Hp|]. split; [exact Ag|exact Hc].
+Qed.
